@@ -15,6 +15,11 @@ CLAIMED["C12"] = ("5/C12",
    "Not covered: exactness of math/big, LegacyDec internals, value-level round-trip of encodings. Trusted: math/big Quo/QuoRem truncation semantics, go/ssa.",
    "finite-domain abstract interpretation over SSA + alias/effect analysis + must-pass-through (dominance) rule")
 
+CLAIMED["C16"] = ("5/C16",
+   "Narrow structural claim on the query side of osmoutils/sumtree/tree.go: which components of the three-way split each range-sum API adds under which nil-bound condition (sentinel consistency), Increase/Decrease as read-modify-write with (negated) amount on the same key, and the leaf case mapping key comparison -1/0/+1 to left/exact/right.",
+   "Not covered: node.go (push/split/pull/merge), equivalence with a sorted map over operation sequences, fan-out settings. Trusted: go/ssa, node.go helpers.",
+   "SSA origin-term rules: return-value formulas under dominating nil-tests, phi-edge case analysis")
+
 NOT_YET = "check not built yet in this revision (static rule set under construction; see DESIGN.md section 5)"
 
 def main():
